@@ -47,6 +47,15 @@ def _normalize_title_quotes(title: str) -> str:
     return f'"{escaped}"'
 
 
+def _render_link_dest(dest: str) -> str:
+    """
+    A link destination that contains whitespace is only valid inside angle brackets.
+    """
+    if any(c.isspace() for c in dest):
+        return f"<{dest}>"
+    return dest
+
+
 def _min_fence_length(code_content: str, fence_char: str = "`") -> int:
     """
     Calculate the minimum fence length needed for code content.
@@ -570,7 +579,7 @@ class MarkdownNormalizer(Renderer):
                 return f"[{label}]"
             return f"[{link_text}][{label}]"
         title = f" {link_title}" if link_title is not None else ""
-        return f"[{link_text}]({element.dest}{title})"
+        return f"[{link_text}]({_render_link_dest(element.dest)}{title})"
 
     def render_auto_link(self, element: inline.AutoLink) -> str:
         return f"<{element.dest}>"
@@ -578,7 +587,9 @@ class MarkdownNormalizer(Renderer):
     def render_image(self, element: inline.Image) -> str:
         template = "![{}]({}{})"
         title = f" {_normalize_title_quotes(element.title)}" if element.title else ""
-        return template.format(self.render_children(element), element.dest, title)
+        return template.format(
+            self.render_children(element), _render_link_dest(element.dest), title
+        )
 
     def render_literal(self, element: inline.Literal) -> str:
         """
